@@ -60,9 +60,10 @@ class StatSpace(Subspace):
     shard = 20
 
     def __init__(self, name, G, lo, hi, grid=False, rep="contig", seed=0, keykind="float",
-                 with_mask=True):
+                 with_mask=True, vdtype="f8"):
         self.name, self.grid, self.rep, self.seed, self.keykind = name, grid, rep, seed, keykind
-        alpha = row_alphabet(G, 1, [gbh.key_can_null(keykind)], True, with_mask)
+        self.vdtype = vdtype
+        alpha = row_alphabet(G, 1, [gbh.key_can_null(keykind)], C.can_null(vdtype), with_mask)
         self.ws = W.WordSpace(alpha, lo, hi)
         self.warm_key = f"{grid}"
 
@@ -71,13 +72,15 @@ class StatSpace(Subspace):
 
     def case(self, i):
         return dict(w=[[list(r[0])] + list(r[1:]) for r in self.ws.at(i)], grid=self.grid,
-                    rep=self.rep, seed=self.seed, keykind=self.keykind)
+                    rep=self.rep, seed=self.seed, keykind=self.keykind, vdtype=self.vdtype)
 
     def run(self, case):
         from groupby_lib import GroupBy
 
         res = Result()
-        d = gbh.Data(case["w"], (case["keykind"],), "f8", case["seed"])
+        vdtype = case.get("vdtype", "f8")
+        d = gbh.Data(case["w"], (case["keykind"],), vdtype, case["seed"])
+        is_float = d.V.dtype.kind == "f" and d.V.dtype.itemsize == 8
         n = d.n
         ms = list(d.ms) if d.ms is not None else [1] * n
         seams = env.seams()
@@ -107,9 +110,15 @@ class StatSpace(Subspace):
             labs = [d.label_of(g) for g in order]
             # ------------------------------------------------------------- var / std
             grid = GRID if case["grid"] else [(0.0, 1.0), (1e6, 1.0)]
+            if not is_float:
+                grid = [(0, 1)]  # integer / float32 values as they are (tables near the dtype limits)
             for off, sc in grid:
-                V = d.V * sc + off
-                py = [None if v is None else float(np.float64(v) * sc + off) for v in d.py]
+                if is_float:
+                    V = d.V * sc + off
+                    py = [None if v is None else float(np.float64(v) * sc + off) for v in d.py]
+                else:
+                    V = d.V
+                    py = [None if v is None else (float(v) if d.V.dtype.kind == "f" else int(v)) for v in d.py]
                 for ddof in (0, 1):
                     for fn in ("var", "std"):
                         res.execs += 1
@@ -129,7 +138,7 @@ class StatSpace(Subspace):
                             ev = R.variance(vals, ddof)
                             gv = got[lab]
                             if ev is None:
-                                if gv is not None and not (isinstance(gv, float) and math.isinf(gv)):
+                                if gv is not None:
                                     res.fail("variance", f"{tag}: group {lab}: {len(vals)} values, expected null got {gv}")
                                     break
                                 continue
@@ -156,6 +165,8 @@ class StatSpace(Subspace):
                                         continue
                                     res.fail("variance", f"{tag}: group {lab}: std {gv} expected {ref}")
                                     break
+            if not is_float:
+                continue
             # ------------------------------------------------------------- median / quantile
             with warnings.catch_warnings():
                 warnings.simplefilter("ignore")
@@ -337,6 +348,8 @@ def subspaces(tier, seed):
     else:
         sp.append(S("A3-n1to4-grid", 3, 1, 4, grid=True, seed=seed))
         sp.append(S("A2-n5-grid", 2, 5, 5, grid=True, seed=seed))
+    for vd in ("i4", "i8", "f4", "u1"):
+        sp.append(S(f"var-{vd}-n1to{3 if q else 4}", 2, 1, 3 if q else 4, vdtype=vd, seed=seed))
     sp.append(S("A2-chunkwise-n1to3", 2, 1, 3, rep="chunkwise", seed=seed))
     sp.append(S("A2-strkeys-n1to3", 2, 1, 3, keykind="str_obj", seed=seed))
     return sp
